@@ -139,6 +139,9 @@ class Fn:
         self.raises = any(isinstance(x, ast.Raise) for x in ast.walk(node))
         self.tuple_literals = {}        # name -> ast.Tuple of ast.Tuple (iterables of a `for`)
         self.tmp = 0
+        self.loop_depth = 0
+        self.loop_no = 0                # ordinal of the `for` statement in source order (names do not depend on line numbers)
+        self.aux = []                   # auxiliary definitions: one per outermost `for` loop nest
 
     # ---- expressions -----------------------------------------------------------------------
     def coerce_f(self, e):
@@ -709,6 +712,8 @@ class Fn:
         pad = "  " * ind
         if s.orelse:
             raise Untranslatable(f"{self.name}: for/else")
+        self.loop_no += 1
+        lno = self.loop_no
         tv = [e.id for e in ast.walk(s.target) if isinstance(e, ast.Name)]
         head_live = self.live_in1(s, live_after)
         carried = sorted((self.assigned(s.body) - set(tv)) & (head_live | live_after))
@@ -751,10 +756,61 @@ class Fn:
             return ["  " * (ind + 2) + st]
         if self.may_return(s.body):
             raise Untranslatable(f"{self.name}: return/raise inside a for loop (line {s.lineno})")
-        body = self.block(s.body, envb, set(carried) | (head_live - set(tv)), tail, ind + 2)
+        outermost = self.loop_depth == 0
+        if outermost:
+            ind_saved, ind, pad = ind, 1, "  "
+        self.loop_depth += 1
+        try:
+            body = self.block(s.body, envb, set(carried) | (head_live - set(tv)), tail, ind + 2)
+        finally:
+            self.loop_depth -= 1
         if not carried:
             return []
-        return ([pad + f"let {st} := {space}.foldl (fun {st} {pat} =>"] + body + [pad + f"  ) {st}"])
+        if outermost:
+            # the whole loop nest becomes an auxiliary definition (closure-converted: every variable of the enclosing
+            # function it mentions is a parameter), so that theorems can be stated and proved loop by loop
+            lines = self.fold_lines(lno, carried, st, space, pat, body, ind, pad, result_only=True)
+            used = set(self.uses(s))
+            if isinstance(s.iter, ast.Name) and s.iter.id in self.tuple_literals:
+                used |= self.uses(self.tuple_literals[s.iter.id][0])
+            free = sorted(n for n in used if n in env and env[n] != "iterable" and n not in tv)
+            for v in carried:
+                if v not in free:
+                    free.append(v)
+            free = sorted(set(free))
+            uses_big = any(re.search(r"\bbig\b", ln) for ln in lines)
+            if uses_big:
+                self.uses_big = True
+            name = f"{self.lean_name()}_loop{lno}"
+            ps = ("(big : α) " if uses_big else "") + " ".join(f"({v} : {lean_type(env[v])})" for v in free)
+            rt = " × ".join(lean_type(env[v]) for v in carried)
+            self.aux.append("\n".join([f"/-- the `for` loop nest at line {s.lineno} of `{self.modkey}.{self.name}` -/",
+                                       f"def {name} {ps} : {rt} :="] + lines) + "\n")
+            pad0 = "  " * ind_saved
+            call = f"({name} {'big ' if uses_big else ''}" + " ".join(free) + ")"
+            if len(carried) == 1:
+                return [pad0 + f"let {carried[0]} := {call}"]
+            res = f"res{lno}"
+            proj = [(".1" if k == 0 else ".2" * k + (".1" if k < len(carried) - 1 else "")) for k in range(len(carried))]
+            return [pad0 + f"let {res} := {call}"] + [pad0 + f"let {v} := {res}{pj}" for v, pj in zip(carried, proj)]
+        return self.fold_lines(lno, carried, st, space, pat, body, ind, pad, result_only=False)
+
+    def fold_lines(self, lno, carried, st, space, pat, body, ind, pad, result_only):
+        if len(carried) == 1:
+            if result_only:
+                return [pad + f"{space}.foldl (fun {st} {pat} =>"] + body + [pad + f"  ) {st}"]
+            return ([pad + f"let {st} := {space}.foldl (fun {st} {pat} =>"] + body + [pad + f"  ) {st}"])
+        # several carried variables: thread them as a tuple read through projections (no pattern matching, so that
+        # the loop is definitionally a fold of a plain function)
+        acc = f"acc{lno}"
+        res = f"res{lno}"
+        proj = [(".1" if k == 0 else ".2" * k + (".1" if k < len(carried) - 1 else "")) for k in range(len(carried))]
+        pad2 = "  " * (ind + 2)
+        pre = [pad2 + f"let {v} := {acc}{pj}" for v, pj in zip(carried, proj)]
+        if result_only:
+            return [pad + f"{space}.foldl (fun {acc} {pat} =>"] + pre + body + [pad + f"  ) {st}"]
+        post = [pad + f"let {v} := {res}{pj}" for v, pj in zip(carried, proj)]
+        return ([pad + f"let {res} := {space}.foldl (fun {acc} {pat} =>"] + pre + body + [pad + f"  ) {st}"] + post)
 
     def emit(self):
         env = dict(zip(self.params, self.ptypes))
@@ -776,7 +832,8 @@ class Fn:
         ps = ("(big : α) " if self.uses_big else "") + " ".join(
             f"({p} : {lean_type(t)})" for p, t in zip(self.params, self.ptypes))
         doc = f"/-- `{self.modkey}.{self.name}` of the current source (line {self.node.lineno}) -/"
-        return "\n".join([doc, f"def {self.lean_name()} {ps} : {rt} :=".replace("  ", " ")] + body) + "\n"
+        return "\n".join(self.aux) + ("\n" if self.aux else "") + \
+            "\n".join([doc, f"def {self.lean_name()} {ps} : {rt} :=".replace("  ", " ")] + body) + "\n"
 
 
 def _const_int(n):
